@@ -41,8 +41,9 @@ EXPECTED = {
     ],
     # sigmoid(z / tau) > threshold  <=>  z > tau * logit(threshold): the comparison is made before the sigmoid rounds
     "_hard_cut": [
-        "if 0.0 < threshold < 1.0:\n    cut = tau * (math.log(threshold) - math.log1p(-threshold))\n    return (z > cut).float()",
-        "return (y_soft > threshold).float()",
+        "if 0.0 < threshold < 1.0:\n    cut = tau * (math.log(threshold) - math.log1p(-threshold))\n    return (z > cut).to(y_soft.dtype)",
+        # outside (0, 1): the soft sample lies strictly inside, so the answer does not depend on the draw
+        "return torch.full_like(y_soft, 1.0 if threshold <= 0.0 else 0.0)",
     ],
     # z = logits + Gumbel noise; soft = softmax(z / tau); hard = one_hot(argmax z) (straight through)
     "gumbel_softmax": [
@@ -61,7 +62,7 @@ EXPECTED = {
     "hard_walsh": [
         "_check_temperature(tau)",
         "x = torch.sigmoid(logits / _representable_tau(tau, logits))",
-        "x = (logits > 0).to(torch.float32) - x.detach() + x",
+        "x = (logits > 0).to(logits.dtype) - x.detach() + x",
         "return x",
     ],
     # logistic noise log U - log(1 - U); z = logits + noise; soft = sigmoid(z / tau); hard: z > tau * logit(threshold)
